@@ -181,3 +181,55 @@ Proof.
   - rewrite single_miss2 by assumption. unfold dec2, q_or. now rewrite Hq.
   - rewrite single_miss5 by assumption. unfold dec5, aborted, rejected. now rewrite Hp, Hq.
 Qed.
+
+(** MGetCache end to end: DoMultiCache over [GET k] commands followed by helper doMultiCache *)
+Definition get_item (k : key) : item := mkItem [bs "GET"; k] false false.
+
+Lemma Forall2_map_l {A B C} (R : A -> B -> Prop) (f : C -> A) l1 l2 :
+  Forall2 (fun c b => R (f c) b) l1 l2 -> Forall2 R (map f l1) l2.
+Proof. induction 1; cbn; constructor; auto. Qed.
+
+Lemma Forall2_map_r_inv {A B C} (R : A -> B -> Prop) (f : C -> B) l1 l2 :
+  Forall2 R l1 (map f l2) -> Forall2 (fun a c => R a (f c)) l1 l2.
+Proof. revert l1; induction l2 as [|c l2 IH]; intros l1 H; inversion H; subst; constructor; auto. Qed.
+
+Lemma Forall2_swap {A B} (R : A -> B -> Prop) l1 l2 : Forall2 R l1 l2 -> Forall2 (fun b a => R a b) l2 l1.
+Proof. induction 1; constructor; auto. Qed.
+
+Theorem mget_cache_end_to_end lookup srv qerr optin use_lru (keys : list key) :
+  keys <> [] ->
+  (forall k c v, lookup k c = LHit v -> m_typ v <> 0%N) ->
+  (forall k c r, lookup k c = LWait r -> filled r) ->
+  (forall a, m_typ (srv a) <> 0%N) ->
+  (forall a e, qerr a = Some e -> m_typ e <> 0%N) ->
+  (* no position fails at the transport / abort level *)
+  (forall k, In k keys -> exists r, expected lookup srv qerr optin false (get_item k) = Ok r /\ r_err r = None) ->
+  exists rs m,
+    do_multi_cache lookup srv qerr optin use_lru (map get_item keys) = Ok rs /\
+    helper_do_multi_cache keys rs [] = Ok (inl m) /\
+    (forall k, In k keys -> exists r, expected lookup srv qerr optin false (get_item k) = Ok r /\ kv_get k m = Some (r_val r)) /\
+    (forall k, ~ In k keys -> kv_get k m = None).
+Proof.
+  intros Hne Hhit Hwait Hsrv Hqerr Hok.
+  set (batch := map get_item keys).
+  assert (Bne : batch <> []) by (unfold batch; destruct keys; [contradiction|discriminate]).
+  assert (Bm : existsb it_mget batch = false).
+  { unfold batch. clear. induction keys; cbn; auto. }
+  assert (Btx : Forall (fun it => not_tx (it_argv it)) batch).
+  { unfold batch. apply Forall_forall. intros it Hit. apply in_map_iff in Hit as [k [<- _]]. split; reflexivity. }
+  assert (Binj : ck_inj (map it_argv batch)).
+  { apply ck_inj_two_words. unfold batch. rewrite map_map. apply Forall_forall. intros a Ha. apply in_map_iff in Ha as [k [<- _]]. reflexivity. }
+  assert (Bst : forallb it_static batch = false).
+  { unfold batch. destruct keys; [contradiction|reflexivity]. }
+  destruct (do_multi_cache_positional_exact lookup srv qerr optin use_lru batch Bne Bm Btx Binj Hhit Hwait Hsrv Hqerr Bst)
+    as (rs & Hrs & Hf).
+  set (f := fun k => match expected lookup srv qerr optin false (get_item k) with Ok r => r_val r | _ => zero_msg end).
+  assert (Hf2 : Forall2 (fun k r => r_err r = None /\ r_val r = f k) keys rs).
+  { apply Forall2_swap. unfold batch in Hf. apply Forall2_map_r_inv in Hf. apply Forall2_with_in in Hf.
+    eapply Forall2_imp; [|exact Hf]. intros r k [Hin Hr]. cbn beta in Hr.
+    destruct (Hok k Hin) as (r' & He & Hn). rewrite He in Hr. injection Hr as <-.
+    split; [assumption|]. unfold f. now rewrite He. }
+  destruct (helper_do_multi_cache_spec f keys rs [] Hf2) as (m & Hm & H1 & H2).
+  exists rs, m. split; [assumption|]. split; [assumption|]. split; [|assumption].
+  intros k Hk. destruct (Hok k Hk) as (r & He & Hn). exists r. split; [assumption|]. rewrite H1 by assumption. unfold f. now rewrite He.
+Qed.
